@@ -25,7 +25,7 @@ Fill == IF Wide THEN {"all", "none", "first", "last", "alt"} ELSE {"all", "alt",
 NL == IF Wide THEN {1, 2, 3} ELSE {1, 3}
 NM == IF Wide THEN {0, 1, 2} ELSE {0, 2}
 XC == IF Wide THEN {0, 1, 2} ELSE {0, 2}
-Extras == IF Wide THEN 0..5 ELSE {0, 3, 5}
+Extras == IF Wide THEN 0..6 ELSE {0, 3, 5, 6}     \* 6: a last-saved reference in the second of two expression binds of one question
 ExtShapes == IF Wide THEN 0..5 ELSE {0, 2, 4, 5}     \* 5: the list column of external_choices under its alias spelling "list name"
 
 \* how the lists are named and labelled: plain names / names containing a dot (legal; only a recognised file extension means
